@@ -5,12 +5,12 @@
 package c08
 
 import (
-	"strings"
-	c06 "verif/props/c06"
 	"bytes"
 	"crypto/ecdsa"
 	"fmt"
 	"math/big"
+	"strings"
+	c06 "verif/props/c06"
 
 	"github.com/emmansun/gmsm/ecdh"
 	"github.com/emmansun/gmsm/sm2"
